@@ -105,13 +105,14 @@ def handle_change_shape():
 
 
 def handle_do_shape():
-    """handle_do: unconditional split at the first colon, one call of _execute_command with data"""
+    """handle_do: a specifier without colon is a ProtocolError, then split at the first colon, one call of _execute_command"""
     ln = _lines(_disp('handle_do'))
     ok = _ordered(ln, [
         'if not specifier:', 'raise ProtocolError(',
+        "if ':' not in specifier:", 'raise ProtocolError(',
         "modulename, cmd = specifier.split(':', 1)",
         'return (COMMANDREPLY, specifier, list(self._execute_command(modulename, cmd, data)))'])
-    ok = ok and not _count(ln, "if ':' in specifier")
+    ok = ok and _count(ln, 'raise ProtocolError(') == 2 and _count(ln, 'modulename, cmd = ') == 1
     return 'bool', cbool(ok)
 
 
@@ -187,32 +188,41 @@ def check_funcs_from_mro():
 
 
 def check_limits_shape():
-    """checkLimits: <p>_limits first (and return), AttributeError -> <p>_min/<p>_max with infinite defaults, inverted, below, above"""
-    ln = _lines(find_func(find_class(parse(MODB), 'Module'), 'checkLimits'))
+    """checkLimits: <p>_limits test (AttributeError -> pass) WITHOUT return, then <p>_min/<p>_max with infinite defaults:
+    inverted, below, above"""
+    f = find_func(find_class(parse(MODB), 'Module'), 'checkLimits')
+    ln = _lines(f)
     ok = _ordered(ln, [
         'try:',
         "min_, max_ = getattr(self, pname + '_limits')",
         'if not min_ <= value <= max_:', 'raise RangeError(',
-        'return',
         'except AttributeError:', 'pass',
         "min_ = getattr(self, pname + '_min', float('-inf'))",
         "max_ = getattr(self, pname + '_max', float('inf'))",
         'if min_ > max_:', 'raise RangeError(',
         'if value < min_:', 'raise RangeError(',
         'if value > max_:', 'raise RangeError('])
-    ok = ok and _count(ln, 'raise RangeError(') == 4
+    ok = ok and _count(ln, 'raise RangeError(') == 4 and not walk_type(f, ast.Return)
+    # the min/max part is at the top level of the function, not inside the except handler
+    top = [src(st).split('\n')[0].strip() for st in f.body]
+    ok = ok and "min_ = getattr(self, pname + '_min', float('-inf'))" in top and 'if value > max_:' in top
     return 'bool', cbool(ok)
 
 
 def export_map_shape():
-    """_add_accessible: an unexported module unexports its accessibles; only exported accessibles get a wire name"""
+    """_add_accessible: configuration first, then an unexported module unexports its accessibles, fixExport, and only
+    exported accessibles get a wire name (a name used twice is a configuration error)"""
     ln = _lines(find_func(find_class(parse(MODB), 'Module'), '_add_accessible'))
     ok = _ordered(ln, [
-        'if not self.export:', 'accessible.export = False',
         'self.accessibles[name] = accessible',
-        'if accessible.export:', 'self.accessiblename2attr[accessible.export] = name',
         'if isinstance(accessible, Parameter):', 'self.parameters[name] = accessible',
-        'if isinstance(accessible, Command):', 'self.commands[name] = accessible'])
+        'if isinstance(accessible, Command):', 'self.commands[name] = accessible',
+        'if cfg is not None:',
+        'if not self.export:', 'accessible.export = False',
+        'accessible.fixExport()',
+        'if accessible.export:',
+        'if accessible.export in self.accessiblename2attr:', 'self.errors.append(',
+        'self.accessiblename2attr[accessible.export] = name'])
     ok = ok and _count(ln, 'self.accessiblename2attr[') == 1
     return 'bool', cbool(ok)
 
@@ -253,7 +263,7 @@ def handler_error_mapping():
 WANTED_NAMES = {
     'NoSuchModuleError': 'NoSuchModule', 'NoSuchParameterError': 'NoSuchParameter', 'NoSuchCommandError': 'NoSuchCommand',
     'ReadOnlyError': 'ReadOnly', 'WrongTypeError': 'WrongType', 'RangeError': 'RangeError', 'HardwareError': 'HardwareError',
-    'InternalError': 'InternalError', 'SECoPError': 'InternalError',
+    'InternalError': 'InternalError', 'SECoPError': 'InternalError', 'ProtocolError': 'ProtocolError',
 }
 
 
